@@ -110,7 +110,8 @@ PROPS = {
         lean_modules=['Swim.Model.Codec', 'Swim.Props.C11', "Swim.Props.GenTie.Codec"],
         tests="^TestC11$",
         rule='three families: (cmp) makeCompoundMessages/decode on generated message lists of 0-600 parts incl. 254-257 and 64 KiB boundary sizes, compared byte-exactly (length+digest) with the model; (dec) decodeCompoundMessage on truncated/mutated/random input compared byte-exactly; (pkt) a real sender packs its membership queue and user-delegate queue (0-80 membership, 0-700 tiny user messages) through gossip() or sendMsg() under random UDPBufferSize/label/encryption version/compression/peer protocol version, the packets are measured and fed to a real receiver; non-trivial = more than one part; distinct = distinct canonical lines',
-        trusted_base=COMMON_TB + ["compression (compress/lzw), AES-GCM, CRC-32 and go-msgpack are opaque primitives: laws as theorem hypotheses, behaviour exercised end to end by the harness",
+        trusted_base=COMMON_TB + ["compression (compress/lzw), AES-GCM and CRC-32 are opaque primitives: laws as theorem hypotheses, behaviour exercised end to end by the harness",
+                                  "go-msgpack: the encoder of the twelve wire structs is modelled byte for byte (compared on every run), the decoder by a strict model compared with the real decoder wherever the model accepts; what the real, more liberal decoder does with other encodings is not modelled",
                                   "regenerated constants in lean/Swim/Gen/Facts.lean (tools/extract runs the verif-tagged accessor)"],
         assumptions=["messages packed into packets are shorter than 64 KiB (UDPBufferSize <= 65535)"],
         level_text='Proof: compound round-trip for <=255 parts and for any count through makeCompoundMessages, and packet_fits for gossip() and sendMsg() budgets over every label/encryption/checksum setting (Lean, constants regenerated from the code); tied by byte-exact compound correspondence and end-to-end packing runs on the real code (measured wire length <= UDPBufferSize, receiver gets exactly the picked messages).',
@@ -118,14 +119,14 @@ PROPS = {
         engine="codec-harness",
     ),
     "C12": dict(
-        lean_modules=['Swim.Model.Codec', 'Swim.Props.C11', 'Swim.Props.C16', 'Swim.Props.C12', "Swim.Props.GenTie.Codec"],
+        lean_modules=['Swim.Model.Codec', 'Swim.Props.C11', 'Swim.Props.C16', 'Swim.Props.C12', "Swim.Props.GenTie.Codec", "Swim.Model.Msgpack", "Swim.Props.Msgpack", "Swim.Props.C12Wire"],
         tests="^TestC12$",
-        rule='round trips on real sender/receiver pairs: best-effort user message (packet path), reliable user message (stream path, random fragmentation, up to 73 KB), and a full join (both directions of push/pull over an in-memory duplex stream with user state) under random label 0-255 / encryption none,v0,v1 / key size / compression / checksum; payload sizes around the 16-byte block boundaries, first payload byte drawn from the marker values; non-trivial = payload of at least 16 bytes',
+        rule='(mp) one random message of one of the twelve wire structs (boundary widths 127/128, 255/256, 65535/65536, 2^31, 2^32-1, 2^63-1; nil / empty / 31-32-255-256-65535-65536 byte strings; omitempty fields empty or not) through the real encode() and decode(): the model encoder must produce the same bytes, the model decoder the same fields, and on one mutated copy (bit flip, byte replaced, truncation) the real decoder must agree with the model decoder whenever the latter accepts; (rt) round trips on real sender/receiver pairs: best-effort user message (packet path), reliable user message (stream path, random fragmentation, up to 73 KB), and a full join (both directions of push/pull over an in-memory duplex stream with user state) under random label 0-255 / encryption none,v0,v1 / key size / compression / checksum; payload sizes around the 16-byte block boundaries, first payload byte drawn from the marker values; non-trivial = payload of at least 16 bytes',
         trusted_base=COMMON_TB + ["compression (compress/lzw), AES-GCM, CRC-32 and go-msgpack are opaque primitives: laws as theorem hypotheses, behaviour exercised end to end by the harness",
                                   "regenerated constants in lean/Swim/Gen/Facts.lean (tools/extract runs the verif-tagged accessor)"],
         assumptions=["messages packed into packets are shorter than 64 KiB (UDPBufferSize <= 65535)"],
-        level_text='Proof: PKCS7, label and compound layers byte-exact; packet_roundtrip over abstract compression/AEAD/checksum primitives with their laws as hypotheses, for every emitted message type (fact theorem), label, key, nonce, compression decision, checksum setting and encryption version; tied by end-to-end round trips through the real send and receive functions.',
-        level_note='Trusted: Lean kernel; lzw, AES-GCM, CRC-32, go-msgpack (laws assumed, exercised); stream path proved only through its shared layers (label, AEAD, compression) - the msgpack stream framing is exercised, not modelled.',
+        level_text='Proof: PKCS7, label and compound layers byte-exact; msgpack round trip and injectivity of every wire struct (schema-driven model, one induction over the field list); packet_roundtrip over abstract compression/AEAD/checksum primitives with their laws as hypotheses, for every emitted message type (fact theorem), label, key, nonce, compression decision, checksum setting and encryption version; tied by end-to-end round trips through the real send and receive functions.',
+        level_note='Trusted: Lean kernel; lzw, AES-GCM, CRC-32 (laws assumed, exercised); msgpack: C12_msgpack_roundtrip / C12_msgpack_injective hold for the modelled encoder and strict decoder of the twelve wire structs (non-negative ints, lengths below 2^32, omitempty fields canonical); the stream path is proved through its shared layers (label, AEAD, compression) and the struct headers, the concatenation of node states behind a push/pull header is exercised, not modelled.',
         engine="codec-harness",
     ),
     "C16": dict(
@@ -198,7 +199,7 @@ PROPS = {
         engine="step-harness+synctest",
     ),
     "C09": dict(
-        lean_modules=["Swim.Model.Verify", "Swim.Lemmas.Merge", "Swim.Props.C09", 'Swim.Model.Cluster', 'Swim.Props.Cluster', 'Swim.Props.ClusterG', 'Swim.Props.Projection', 'Swim.Props.C05Recover', 'Swim.Props.C09Cluster'],
+        lean_modules=["Swim.Model.Verify", "Swim.Lemmas.Merge", "Swim.Props.C09", 'Swim.Model.Cluster', 'Swim.Props.Cluster', 'Swim.Props.ClusterG', 'Swim.Props.Projection', 'Swim.Props.C05Recover', 'Swim.Props.C09Cluster', "Swim.Model.Msgpack", "Swim.Props.Msgpack"],
         tests="^TestC09$",
         shards_quick=4,
         rule=("(vp) verifyProtocol on local tables of 1-4 records (alive/suspect/dead, admitted version vectors or none) against remote lists of 0-3 "
@@ -212,8 +213,10 @@ PROPS = {
         level_text=("Proof: verifyProtocol soundness (acceptance implies every listed node's spoken versions lie within every alive node's understood "
                     "range, both sides), admission order (version error / veto before any merge), hearsay never kills, reported-alive members are listed "
                     "after the merge; C09_cluster_join_lists: in every reachable state of the cluster model a running node's own state entry, delivered to any node whose filters pass it, leaves that node listing the sender - whether it was unknown, held older in any state, or already listed - the address condition being an invariant (Lean). Tied by table correspondence of verifyProtocol, full joins compared with the model on both nodes, and "
-                    "cut-at-every-byte / oversize campaigns on the real stream code."),
-        level_note="Trusted: Lean kernel; msgpack stream framing and TCP behaviour are exercised, not proved (all-or-nothing at byte level is an enumeration).",
+                    "cut-at-every-byte / oversize campaigns on the real stream code; C09_pushpull_framing_roundtrip: the framing of the state exchange "
+                    "(header, node states back to back, user state) is parsed back to the same content and the parser stops at its end (msgpack model, "
+                    "tied to the stream a real node writes for a Join)."),
+        level_note="Trusted: Lean kernel; TCP behaviour and the real decoder on non-canonical encodings are exercised, not proved (all-or-nothing at byte level is an enumeration).",
         engine="step-harness+codec-harness",
     ),
     "C19": dict(
